@@ -162,3 +162,34 @@ Theorem coo_scalar_rule_refuted :
     /\ getitem kf x ix = Ok r /\ is_gscalar r <> np_scalar (c_shape x) ix.
 Proof. exact coo_scalar_rule_refuted_proof. Qed.
 Print Assumptions coo_scalar_rule_refuted.
+
+(* (2') SEVERAL 1-D integer index arrays of one length (integers and slices anywhere else): one call of
+   _compute_mask per position of the arrays (each with its own cut-over), the arrays share one result axis
+   placed where the first array stands, the constructor sorts; same conclusion as above.
+   Full statement: without d30_clause — the kernel then reads indices[ixx] and writes full_idx[ix] out of
+   bounds (finding D30; the model reports the access as RuntimeError), see coo_getitem_multi_array_refuted. *)
+From Verif Require Import CooIndexMultiP.
+Theorem coo_getitem_multi_array_partial :
+  forall (V : Type) (kf : nat -> nat) (x : coo V) (ix : index),
+    canonical V x -> shape_okb (c_shape x) = true -> no_zero_step ix = true ->
+    multi_array ix = true -> d30_clause (c_shape x) ix = true ->
+    match np_index (c_shape x) ix with
+    | Raise e => getitem kf x ix = Raise e /\ e = IndexError
+    | Ok (sh', g) =>
+      match getitem kf x ix with
+      | Ok (GArr y) => c_shape y = sh' /\ c_fill y = c_fill x /\ canonical V y
+                       /\ forall j, in_range sh' j -> den y j = den x (g j)
+      | Ok (GScalar v) => sh' = [] /\ v = den x (g [])
+      | Raise _ => False
+      end
+    end.
+Proof. exact coo_getitem_multi_array_proof. Qed.
+Print Assumptions coo_getitem_multi_array_partial.
+
+Theorem coo_getitem_multi_array_refuted :
+  exists (x : coo Z) (ix : index),
+    canonical Z x /\ shape_okb (c_shape x) = true /\ no_zero_step ix = true /\ multi_array ix = true
+    /\ (exists sh' g, np_index (c_shape x) ix = Ok (sh', g))
+    /\ getitem (fun _ => 0%nat) x ix = Raise RuntimeError.
+Proof. exact coo_getitem_multi_array_refuted_proof. Qed.
+Print Assumptions coo_getitem_multi_array_refuted.
